@@ -93,7 +93,26 @@ def c19():
     return S
 
 
-SCEN = {"C09": c09, "C18": c18, "C19": c19}
+def kf2():
+    """KNOWN FINDING KF2 (exhibited by TLC on spec/mc/KF_rechannel.cfg): UpdateConfig changes the IBC channel while
+    transfers sent on the previous channel are unresolved. receive_ack / receive_timeout compare the callback's
+    channel with the CURRENT configuration, so the outcome of those transfers is ignored: a failed transfer stays
+    recorded as Sent although its refund sits in the contract (only an admin-forced recovery can re-send it), and
+    because INFLIGHT_PACKETS is keyed by the sequence number alone, a transfer on the new channel whose number
+    coincides overwrites the old record."""
+    S = start(1)
+    S += [stake("u1", 100), stake("u2", 60),
+          upd(proto={"channel": "channel-2", "minStake": 1, "oracle": "oracle", "valid": True}),
+          ack(1, "err"),                 # ignored: still recorded as Sent, 100 refunded to the contract
+          ack(2, "timeout"),
+          recover("u3"),                 # nothing refundable according to the contract
+          {"m": "ibc_set_next", "n": 1},  # the new channel numbers its packets from 1
+          stake("u3", 30),               # sequence 1 again: the record of the failed 100 is overwritten
+          ack(1, "ok")]
+    return S
+
+
+SCEN = {"C09": c09, "C18": c18, "C19": c19, "KF2": kf2}
 
 if __name__ == "__main__":
     os.makedirs(OUT, exist_ok=True)
